@@ -9,6 +9,7 @@ import StimModel.Model.Algebra
 import StimModel.Model.FSim
 import StimModel.Model.DemSem
 import StimModel.Model.Search
+import StimModel.Model.Explain
 /-! Line-protocol dispatcher: one request line in, one answer line out. -/
 namespace Stim.Driver
 open Stim Stim.Wire
@@ -830,6 +831,163 @@ def wcnfCheck (toks : List String) : String :=
     | none => "bad-request"
   | _ => "bad-request"
 
+/-! ### `explain check` (C18) -/
+def parseXTargets : Nat → List String → Option (List XTarget × List String)
+  | 0, ts => some ([], ts)
+  | k+1, d :: nc :: ts => do
+      let dv ← d.toNat?
+      let n ← nc.toNat?
+      let (cs, rest) ← takeNats n ts
+      let (more, rest2) ← parseXTargets k rest
+      pure (⟨dv, cs⟩ :: more, rest2)
+  | _, _ => none
+
+def parseXTargetList (toks : List String) : Option (List XTarget × List String) :=
+  match toks with
+  | n :: rest => do parseXTargets (← n.toNat?) rest
+  | [] => none
+
+def parseXFrames : Nat → List String → Option (List XFrame × List String)
+  | 0, ts => some ([], ts)
+  | k+1, a :: b :: c :: ts => do
+      let (more, rest) ← parseXFrames k ts
+      pure (⟨← a.toNat?, ← b.toNat?, ← c.toNat?⟩ :: more, rest)
+  | _, _ => none
+
+def parseXLoc (toks : List String) : Option (XLoc × List String) :=
+  match toks with
+  | "LOC" :: tag :: tick :: nf :: rest => do
+    let (frames, rest) ← parseXFrames (← nf.toNat?) rest
+    let (pauli, rest) ← parseXTargetList rest
+    match rest with
+    | m :: rest => do
+      let mv ← m.toNat?
+      let (obsT, rest) ← parseXTargetList rest
+      match rest with
+      | g :: gtag :: na :: rest => do
+        let (args, rest) ← takeNats (← na.toNat?) rest
+        match rest with
+        | rs :: re :: rest => do
+          let (range, rest) ← parseXTargetList rest
+          pure ({ noiseTag := unhex tag, tick := ← tick.toNat?, frames := frames, pauli := pauli,
+                  meas := if mv == 2^64 - 1 then none else some mv, measObs := obsT, gate := g, gateTag := unhex gtag,
+                  args := args, rangeStart := ← rs.toNat?, rangeEnd := ← re.toNat?, range := range }, rest)
+        | _ => none
+      | _ => none
+    | [] => none
+  | _ => none
+
+def parseXLocs : Nat → List String → Option (List XLoc × List String)
+  | 0, ts => some ([], ts)
+  | k+1, ts => do
+      let (l, rest) ← parseXLoc ts
+      let (more, rest2) ← parseXLocs k rest
+      pure (l :: more, rest2)
+
+def parseXTerms : Nat → List String → Option (List (DTarget × List Nat) × List String)
+  | 0, ts => some ([], ts)
+  | k+1, t :: nc :: ts => do
+      let tv ← parseDTarget t
+      let (cs, rest) ← takeNats (← nc.toNat?) ts
+      let (more, rest2) ← parseXTerms k rest
+      pure ((tv, cs) :: more, rest2)
+  | _, _ => none
+
+def parseXErrs : Nat → List String → Option (List (List (DTarget × List Nat) × List XLoc) × List String)
+  | 0, ts => some ([], ts)
+  | k+1, "ERR" :: nt :: ts => do
+      let (terms, rest) ← parseXTerms (← nt.toNat?) ts
+      match rest with
+      | nl :: rest => do
+        let (locs, rest) ← parseXLocs (← nl.toNat?) rest
+        let (more, rest2) ← parseXErrs k rest
+        pure ((terms, locs) :: more, rest2)
+      | [] => none
+  | _, _ => none
+
+abbrev XE := List Bool × List (DTarget × List Nat) × List XLoc
+
+/-- `explain check <circuit> <dem> (0 | 1 <filter-dem>) <reduce> <n> <errors...>` -/
+def explainCheck (toks : List String) : String :=
+  match parseCircuit toks with
+  | none => "bad-request"
+  | some (c, rest) =>
+  match parseDem rest with
+  | none => "bad-request"
+  | some (dem, rest) =>
+  let filt : Option (Option Dem × List String) := match rest with
+    | "0" :: rest => some (none, rest)
+    | "1" :: rest => (parseDem rest).map fun (m, r) => (some m, r)
+    | _ => none
+  match filt with
+  | none => "bad-request"
+  | some (filter, red :: nS :: rest) =>
+    (match nS.toNat? with
+    | none => "bad-request"
+    | some nErr =>
+    match parseXErrs nErr rest with
+    | some (errs, []) =>
+      let reduce := red == "1"
+      let shape0 := c.symptomShape
+      -- a filter may mention detectors / observables the circuit does not have: widen the symptom vectors so that they stay distinct
+      let shape : Nat × Nat := match filter with
+        | none => shape0
+        | some f => (max shape0.1 f.countDetectors, max shape0.2 f.countObservables)
+      let cs := c.coords
+      let vecOf (ts : List DTarget) : List Bool := errorVec shape ts
+      let demVecs := (demErrors shape dem).filterMap fun (p, v) => if p != 0 then some v else none
+      let explained : List XE := errs.map fun (terms, locs) => (vecOf (terms.map (·.1)), terms, locs)
+      -- (1) presence
+      let required : List (List Bool × Bool) := match filter with    -- (symptom vector, must have a location)
+        | none => demVecs.map fun v => (v, true)
+        | some f => (demErrors shape f).map fun (_, v) => (v, demVecs.contains v)
+      let missing := required.find? fun (v, needLoc) =>
+        match explained.find? (·.1 == v) with
+        | none => true
+        | some (_, _, locs) => needLoc && locs.isEmpty
+      match missing with
+      | some (v, _) => "error-not-explained " ++ strOfBits v
+      | none =>
+      -- filtered: nothing outside the filter
+      let outside : Option XE := match filter with
+        | none => none
+        | some f => explained.find? fun (v, _, _) => !((demErrors shape f).any (·.2 == v))
+      match outside with
+      | some (v, _, _) => "explained-error-not-in-filter " ++ strOfBits v
+      | none =>
+      -- targets in range of the shape (an out-of-range target would be dropped by `errorVec`)
+      let badTerm : Option XE := explained.find? fun (_, terms, _) => terms.any fun (t, _) =>
+        match t with | .det k => k ≥ shape.1 | .obs k => k ≥ shape.2 | .sep => true
+      match badTerm with
+      | some (v, _, _) => "bad-dem-target " ++ strOfBits v
+      | none =>
+      let dup : Option XE := explained.find? fun (v, _, _) => (explained.filter (·.1 == v)).length > 1
+      match dup with
+      | some (v, _, _) => "error-listed-twice " ++ strOfBits v
+      | none =>
+      let tooMany : Option XE := explained.find? fun (_, _, locs) => reduce && locs.length > 1
+      match tooMany with
+      | some (v, _, _) => "more-than-one-representative " ++ strOfBits v
+      | none =>
+      -- detector coordinates
+      let badCoord : Option XE := explained.find? fun (_, terms, _) => terms.any fun (t, cds) =>
+        match t with
+        | .det k => !ratsEq' (cs.dets.getD k []) (cds.map ratOfBits)
+        | _ => !cds.isEmpty
+      match badCoord with
+      | some (v, _, _) => "wrong-detector-coords " ++ strOfBits v
+      | none =>
+      -- (2) every location reproduces the symptoms
+      let bad := explained.findSome? fun (v, _, locs) =>
+        (locs.zipIdx).findSome? fun (l, i) =>
+          let r := checkLoc c shape cs.qubits v l
+          if r == "ok" then none else some (s!"{r} error={strOfBits v} location={i}")
+      match bad with
+      | some r => r
+      | none => "ok"
+    | _ => "bad-request")
+  | _ => "bad-request"
+
 def answer (toks : List String) : String :=
   match toks with
   | "tsim" :: "check" :: rest => tsimCheck rest
@@ -850,6 +1008,7 @@ def answer (toks : List String) : String :=
   | "circ" :: "shift" :: rest => circShift rest
   | "circ" :: "detcoords" :: rest => circDetCoords rest
   | "circ" :: "qcoords" :: rest => circQCoords rest
+  | "explain" :: "check" :: rest => explainCheck rest
   | "dem" :: "check" :: rest => demCheck rest
   | "dem" :: "coords" :: rest => demCoords rest
   | "gate" :: "act" :: rest => gateAct rest
